@@ -15,6 +15,7 @@
    [succ_dels hs]  = the pol_del h HookSucceeded of the hooks of hs, in that order.
    [quiet tr]      no cluster mutation and no hook watch in tr; [storage_only tr]: no cluster
                    call at all; [nowatch tr]: no hook watch. *)
+From Helm Require Props.Skeleton. (* effect skeleton tied to /repo by the translator: notes/SKEL.md *)
 From Coq Require Import List String Bool ZArith Permutation Sorted.
 From Helm Require Import Engine.Types Engine.Eff Engine.Ops Engine.Cluster Engine.Seq
   Engine.HooksProofsSort Engine.HooksProofsTrace Engine.HooksProofsOrder Engine.HooksProofsGate
